@@ -21,7 +21,7 @@ OBLIGATIONS = {
                ('o13_1_ikey_separator_1_1', 'qt'), ('o13_1_ikey_separator_2_2', 'qt'), ('o13_1_ikey_separator_2_1', 't'),
                ('o13_1_ikey_successor_1', 'qt'), ('o13_1_ikey_successor_2', 'qt')]),
     'O14.1': ('Bloom filter answers true for every key it was created from (also when read by a policy with another bits_per_key)',
-              [('o14_1_bloom_b10_l1_l4', 'qt'), ('o14_1_bloom_b1_l0_l3', 'qt'), ('o14_1_bloom_reader_other_bits', 'qt'), ('o14_1_bloom_b64_l1_l0', 'qt'), ('o14_1_bloom_b45_l0_l1', 't'), ('o14_1_bloom_b64_l5_l1', 't'), ('o14_1_bloom_b9_l4_l4', 't'), ('o14_1_bloom_b43_l3_l5', 't')]),
+              [('o14_1_bloom_b10_l1_l4', 'qt'), ('o14_1_bloom_b1_l0_l3', 'qt'), ('o14_1_bloom_reader_other_bits', 'qt'), ('o14_1_bloom_b64_l1_l0', 'qt'), ('o14_1_bloom_b45_l0_l1', 't'), ('o14_1_bloom_b64_l5_l1', 't'), ('o14_1_bloom_b9_l4_l4', 't'), ('o14_1_bloom_b43_l3_l5', '')]),
     'O15.1': ('unmask(mask(x)) = x for every u32', [('o15_1_crc_mask_roundtrip', 'qt')]),
     'O15.3': ('parsers never panic on arbitrary bytes',
               [('o15_3_parse_block_record_9', 'qt'), ('o15_3_parse_block_record_6', 'qt'), ('o15_3_parse_footer_48', 'qt'), ('o15_3_parse_footer_47', 't'),
@@ -31,7 +31,7 @@ OBLIGATIONS = {
     'O12.6': ('one log fragment of every type (Full / First / Middle / Last) with 0..2 payload bytes survives serialise + parse with its type and payload (real CRC)',
               [('o12_6_fragment_roundtrip_len0', 'qt'), ('o12_6_fragment_roundtrip_len1', 'qt'), ('o12_6_fragment_roundtrip_len2', 't')]),
     'O15.2': ('a one-record log with one byte altered (crc / length / type / payload position) never yields a record that was not appended',
-              [('o15_2_log_corrupt_crc0', 'qt'), ('o15_2_log_corrupt_payload7', 'qt'), ('o15_2_log_corrupt_type6', 'qt'), ('o15_2_log_corrupt_len4', 't'), ('o15_2_log_corrupt_payload8', 't')]),
+              [('o15_2_log_corrupt_crc0', 'qt'), ('o15_2_log_corrupt_payload7', 'qt'), ('o15_2_log_corrupt_type6', 'qt'), ('o15_2_log_corrupt_len4', ''), ('o15_2_log_corrupt_payload8', 't')]),
 }
 STUBS = ['alloc::fmt::format -> returns an empty String (messages of error values are not represented)']
 
@@ -75,6 +75,7 @@ def run_harness(name, target_dir, timeout, mem_gb, extra=(), harness=None):
         real = [d for d in failed_desc if 'unwinding assertion' not in d]
         if 'Status: ERROR' in out or 'out of memory' in out.lower(): r['outcome'] = 'inconclusive'; r['detail'] = 'solver error / out of memory'
         elif real: r['outcome'] = 'fail'; r['detail'] = '; '.join(real[:3])
+        elif not failed_desc: r['outcome'] = 'inconclusive'; r['detail'] = 'no verdict: the back end stopped without naming a failed check (out of memory under the %d GB limit?)' % mem_gb
         else: r['outcome'] = 'inconclusive'; r['detail'] = 'unwinding bound too small: ' + '; '.join(failed_desc[:2])
     else:
         r['outcome'] = 'inconclusive'; r['detail'] = 'no verdict (compiler error, crash, rc=%s): %s' % (rc, out[-400:].replace('\n', ' | '))
